@@ -440,6 +440,7 @@ class Body:
         self._reach = {}
         self._cl = None
         self._forced = {}
+        self._dab = None
 
     # ---- identity
     def is_derived(self):
@@ -933,10 +934,49 @@ class Body:
         blk = self.blocks[site.bb]
         return blk["term"] if site.i is None else blk["stmts"][site.i]
 
-    def calls(self, normal_only=True):
+    def debug_assert_blocks(self):
+        """blocks that only exist to evaluate a `debug_assert!`: between the `cfg!(debug_assertions)` test and
+        the point where the asserting and the non-asserting paths meet again.  Such code decides nothing but
+        "panic or go on" and is absent from release builds; inventories of calls and comparisons skip it."""
+        if getattr(self, "_dab", None) is not None:
+            return self._dab
+        out = set()
+        for bb in sorted(self.normal_blocks()):
+            t = self.blocks[bb]["term"]
+            if t.get("t") != "switch":
+                continue
+            mac = (t.get("span") or {}).get("macros", [])
+            if not any(m in ("debug_assert", "debug_assert_eq", "debug_assert_ne") for m in mac):
+                continue
+            v = self._const_discr(self.blocks[bb], t)
+            if v is None:
+                continue
+            zero = [tb for av, tb in t["arms"] if int(av) == 0]
+            if not zero:
+                continue
+            taken, skip = (t["otherwise"], zero[0]) if v != 0 else (zero[0], t["otherwise"])
+            st = self.blocks[skip]["term"]
+            if st.get("t") != "goto":
+                continue
+            join = st["target"]
+            seen, todo = set(), [taken]
+            while todo:
+                x = todo.pop()
+                if x in seen or x == join:
+                    continue
+                seen.add(x)
+                todo += list(self.succs(x))
+            out |= seen
+        self._dab = out
+        return out
+
+    def calls(self, normal_only=True, skip_debug_asserts=True):
         """yield (site, callee_info, term) for every call terminator with a static callee"""
+        dab = self.debug_assert_blocks() if skip_debug_asserts else ()
         for site, t in self.sites(normal_only):
             if site.i is None and t["t"] == "call":
+                if site.bb in dab and t.get("target") is not None:
+                    continue
                 yield site, callee_of(t), t
 
     def calls_to(self, pred, normal_only=True):
